@@ -380,7 +380,7 @@ def op_scenario(ctx):
                 c0, c1 = v3_amounts_per_liquidity(l_, h_, price, side.t0q, side.pool.token0.decimal, side.pool.token1.decimal)
                 bq = side.bq(c0, c1)
                 worth = N(_dec(rr[0])) * (bq[0] * N(price) + bq[1])
-                ctx.check("estimate_liquidity: the liquidity returned is worth the requested value at the bar price (1 %), in each orientation", sabs(worth - N(val)) <= N(D("0.01")) * N(val) + N(D("1e-6")))
+                ctx.check("estimate_liquidity: the liquidity returned is worth the requested value at the bar price (1 %), in each orientation", sabs(worth - N(val)) <= N(D("0.01")) * N(val) + N(D("1e-6")) + N(sl.b) * N(price) + N(sl.q))  # sl: whole on-chain units (a base amount below one wei buys no liquidity)
         return
     # ---- operations on an existing position
     keys = _setup_position(ctx, a, b, sl)
